@@ -77,18 +77,31 @@ Qed.
 
 (* Merge is associative and commutative with the new container as unit, on everything an observer can
    see: both sides are described by the same values *)
-Lemma merge_monoid c a va na b vb nb d vd nd :
+Lemma merge_monoid sc c a va na b vb nb d vd nd :
   sdesc c a va na -> sdesc c b vb nb -> sdesc c d vd nd ->
   sdesc c (merge_summ (merge_summ a b) d) (va ++ vb ++ vd) (na + nb + nd) /\
   sdesc c (merge_summ a (merge_summ b d)) (va ++ vb ++ vd) (na + nb + nd) /\
   sdesc c (merge_summ a b) (va ++ vb) (na + nb) /\ sdesc c (merge_summ b a) (va ++ vb) (na + nb) /\
-  sdesc c (merge_summ new_summ a) va na /\ sdesc c (merge_summ a new_summ) va na.
+  sdesc c (merge_summ (new_summ sc) a) va na /\ sdesc c (merge_summ a (new_summ sc)) va na.
 Proof.
   intros A B D. split; [|split; [|split; [|split; [|split]]]].
   - rewrite app_assoc. apply sdesc_merge; [apply sdesc_merge|]; assumption.
   - rewrite <- N.add_assoc. apply sdesc_merge; [|apply sdesc_merge]; assumption.
   - apply sdesc_merge; assumption.
   - rewrite (N.add_comm na nb). eapply sdesc_perm; [apply Permutation_app_comm|]. apply sdesc_merge; assumption.
-  - change va with ([] ++ va). change na with (0 + na)%N. apply sdesc_merge; [apply sdesc_new|assumption].
-  - rewrite <- (app_nil_r va), <- (N.add_0_r na). apply sdesc_merge; [assumption|apply sdesc_new].
+  - change va with ([] ++ va). change na with (0 + na)%N. apply sdesc_merge; [apply (sdesc_new sc)|assumption].
+  - rewrite <- (app_nil_r va), <- (N.add_0_r na). apply sdesc_merge; [assumption|apply (sdesc_new sc)].
+Qed.
+
+(* why Merge needs its Total = 0 case: the sentinels of a fresh container are not neutral beyond
+   +-2^63.  One value 10^19 > 2^63 merged into a fresh container with the collapsed variant keeps the
+   sentinel as Min; the real Merge gives the value. *)
+Lemma merge_v0_refuted :
+  exists x vs, sdesc false x vs 0 /\ vs <> [] /\
+    s_min (merge_summ_v0 (new_summ 0) x) = 2 ^ 63 /\ s_min (merge_summ_v0 (new_summ 0) x) <> Proofs.list_min vs /\
+    s_min (merge_summ (new_summ 0) x) = Proofs.list_min vs.
+Proof.
+  exists (insert_val false (10 ^ 19) (new_summ 0)), [10 ^ 19].
+  split; [apply sdesc_insert; apply sdesc_new|]. split; [discriminate|]. split; [reflexivity|]. split; [|reflexivity].
+  vm_compute. discriminate.
 Qed.
